@@ -34,6 +34,15 @@ impl Subjects {
             at.extend([tree::Step::Index(i), tree::Step::Field("sequence")]);
             *t.get_mut(&at).ok_or("no sequence")? = T::Some(Box::new(T::U32(0xffff_fffe)));
         }
+        for (i, height, time) in shapes::required_lock_times(name) {
+            for (field, v) in [("required_height_lock_time", height), ("required_time_lock_time", time)] {
+                if let Some(v) = v {
+                    let mut at = inputs.to_vec();
+                    at.extend([tree::Step::Index(i), tree::Step::Field(field)]);
+                    *t.get_mut(&at).ok_or("no required lock time field")? = T::Some(Box::new(T::U32(v)));
+                }
+            }
+        }
         shape.created = parse_tree(&t).map_err(|e| format!("created PCZT with non-default lock time and sequence: {e}"))?;
         // (a disagreement between the identity opinions on the PCZT as created is a verdict, not a
         // machinery error: the caller recognises the prefix)
@@ -44,6 +53,12 @@ impl Subjects {
                 continue;
             }
             p = shape.apply(&r, p).map_err(|e| format!("canonical order, role {}: {e}", r.name()))?;
+            // (a verdict, like the identity as created: the maximal PCZT must describe the same transaction)
+            match identity(&p).map_err(|e| format!("identity: canonical order, after {}: {e}", r.name()))? {
+                Some(id) if id == id0 => {}
+                Some(id) => return Err(format!("identity: canonical order, after {}: effects identity changed: {} (as created: {})", r.name(), hex::encode(id), hex::encode(id0))),
+                None => return Err(format!("identity: canonical order, after {}: effects identity is no longer computable", r.name())),
+            }
         }
         Ok(Subjects { shape, id0, maximal: p })
     }
@@ -568,6 +583,102 @@ fn check_lockvar(b: &Base, case: &Value) -> Result<String, String> {
     .into())
 }
 
+/// The lists whose length a Constructor may still change, with the `tx_modifiable` bit that
+/// governs each (documentation of `Global::tx_modifiable`) and the bundle whose `bsk`, once set by
+/// the IO Finalizer, freezes the counts.
+const LISTS: &[(&str, &str, &str, u8)] = &[
+    ("transparent.inputs", "transparent", "inputs", 0b0000_0001),
+    ("transparent.outputs", "transparent", "outputs", 0b0000_0010),
+    ("sapling.spends", "sapling", "spends", 0b1000_0000),
+    ("sapling.outputs", "sapling", "outputs", 0b1000_0000),
+    ("orchard.actions", "orchard", "actions", 0b1000_0000),
+    ("ironwood.actions", "ironwood", "actions", 0b1000_0000),
+];
+
+fn list_path(bundle: &'static str, list: &'static str) -> [tree::Step; 3] {
+    [tree::Step::Field(bundle), tree::Step::Inner, tree::Step::Field(list)]
+}
+
+/// Copies that differ in the NUMBER of inputs / outputs / actions (one is a prefix of the other, as
+/// when a Constructor appended to a copy of a still-modifiable PCZT) and in `tx_modifiable`.
+///
+/// Reference, from the documentation of the flags ("indicates whether transparent inputs can be
+/// modified", "... outputs ...", "... shielded spends or outputs ...") and of the merge ("fail if the
+/// merge would add inputs to a non-modifiable bundle"; "if bsk is set on either bundle, the IO
+/// Finalizer has run, which means we cannot have differing numbers of actions"): the combination
+/// exists iff, for every list whose lengths differ, the copy with FEWER entries allows that list
+/// to be modified and neither copy carries the bundle's bsk; it is then the longer of each list,
+/// with the flags merged bit by bit. The outcome must not depend on the order of the copies.
+fn check_counts(b: &Base, case: &Value) -> Result<String, String> {
+    let flags_path = [tree::Step::Field("global"), tree::Step::Field("tx_modifiable")];
+    let cuts = |v: &Value| -> Vec<(usize, usize)> {
+        v.as_array().map(|a| a.iter().filter_map(|c| Some((LISTS.iter().position(|l| Some(l.0) == c[0].as_str())?, c[1].as_u64()? as usize))).collect()).unwrap_or_default()
+    };
+    let (fa, fb) = (case["fa"].as_u64().unwrap_or(0) as u8, case["fb"].as_u64().unwrap_or(0) as u8);
+    let (ca, cb) = (cuts(&case["a"]), cuts(&case["b"]));
+    let len_of = |t: &T, l: usize| t.get(&list_path(LISTS[l].1, LISTS[l].2)).map(|x| x.items().len());
+    let mk = |cut: &[(usize, usize)], flags: u8| -> Result<Option<(T, Pczt)>, String> {
+        let mut t = b.top.clone();
+        *t.get_mut(&flags_path).ok_or("no global.tx_modifiable")? = T::U8(flags);
+        for (l, n) in cut {
+            match t.get_mut(&list_path(LISTS[*l].1, LISTS[*l].2)) {
+                Some(T::Seq(xs)) if xs.len() >= *n => xs.truncate(xs.len() - n),
+                _ => return Ok(None),
+            }
+        }
+        // a transparent bundle with nothing in it is omitted from the encoding
+        let tb = [tree::Step::Field("transparent"), tree::Step::Inner];
+        if let Some(x) = t.get(&tb) {
+            if x.field("inputs").map(|i| i.items().is_empty()).unwrap_or(false) && x.field("outputs").map(|i| i.items().is_empty()).unwrap_or(false) {
+                *t.get_mut(&[tree::Step::Field("transparent")]).ok_or("no transparent")? = T::None;
+            }
+        }
+        Ok(parse_tree(&t).ok().map(|p| (t, p)))
+    };
+    let (Some((ta, pa)), Some((tb_, pb))) = (mk(&ca, fa)?, mk(&cb, fb)?) else { return Ok("counts:unrepresentable".into()) };
+    // reference
+    let mut allowed = true;
+    let mut want = b.top.clone();
+    for (l, (_, bundle, _, bit)) in LISTS.iter().enumerate() {
+        let (na, nb) = (len_of(&ta, l).unwrap_or(0), len_of(&tb_, l).unwrap_or(0));
+        if na == nb {
+            if let (Some(T::Seq(xs)), Some(n)) = (want.get_mut(&list_path(LISTS[l].1, LISTS[l].2)), len_of(&ta, l)) {
+                xs.truncate(n);
+            }
+            continue;
+        }
+        let shorter_flags = if na < nb { fa } else { fb };
+        let has_bsk = |t: &T| t.get(&[tree::Step::Field(bundle), tree::Step::Inner, tree::Step::Field("bsk")]).map(|x| x.some().is_some()).unwrap_or(false);
+        if shorter_flags & bit == 0 || has_bsk(&ta) || has_bsk(&tb_) {
+            allowed = false;
+        }
+        if let Some(T::Seq(xs)) = want.get_mut(&list_path(LISTS[l].1, LISTS[l].2)) {
+            xs.truncate(na.max(nb));
+        }
+    }
+    *want.get_mut(&flags_path).ok_or("no flags")? = T::U8((fa & fb & 0b1000_0011) | ((fa | fb) & 0b0000_0100));
+    let want_bytes = tree::pczt_bytes(2, &want);
+    let ab = shapes::combine(vec![pa.clone(), pb.clone()]);
+    let ba = shapes::combine(vec![pb, pa]);
+    let describe = |r: &Result<Pczt, String>| match r {
+        Ok(_) => "Ok".to_string(),
+        Err(e) => format!("Err({e})"),
+    };
+    match (&ab, &ba) {
+        (Ok(_), Err(_)) | (Err(_), Ok(_)) => return Err(format!("the outcome depends on the order of the copies: combine([A, B]) = {}, combine([B, A]) = {}", describe(&ab), describe(&ba))),
+        _ => {}
+    }
+    for (r, what) in [(&ab, "combine([A, B])"), (&ba, "combine([B, A])")] {
+        match (r, allowed) {
+            (Err(e), false) if e == "DataMismatch" => {}
+            (Ok(m), true) => same_bytes(m, &want_bytes, what)?,
+            (Ok(_), false) => return Err(format!("{what} succeeded although a copy with fewer entries does not allow that list to be modified (or the counts are frozen by bsk): the copies conflict")),
+            (Err(e), _) => return Err(format!("{what} failed with {e}; the copies do not conflict (every shorter list may be extended)")),
+        }
+    }
+    Ok(if allowed { "counts:merged" } else { "counts:refused" }.into())
+}
+
 pub fn check_case(b: &Base, case: &Value) -> Result<String, String> {
     let r = catch(|| -> Result<String, String> {
         match case["check"].as_str().unwrap_or("") {
@@ -591,6 +702,7 @@ pub fn check_case(b: &Base, case: &Value) -> Result<String, String> {
                 check_effecting(b, e, a)
             }
             "lockvar" => check_lockvar(b, case),
+            "counts" => check_counts(b, case),
             "flags" => check_flags(b, case["l"].as_u64().unwrap_or(0) as u8, case["r"].as_u64().unwrap_or(0) as u8),
             "classify" => {
                 let id = case["atom"].as_str().unwrap_or("");
@@ -672,7 +784,7 @@ fn cases_for(b: &Base, args: &Args) -> Vec<Value> {
     // singletons against bottom and top, and all pairs
     // (quick tier: the pair enumeration runs on the created / maximal / saturated tops of the four
     // transaction shapes; the compacted tops and the memo shapes keep singletons and subsets)
-    let pairs = args.tier == mc_core::Tier::Thorough || !(shapes::is_memo_shape(&b.subject) || b.base == "compacted");
+    let pairs = args.tier == mc_core::Tier::Thorough || !(shapes::is_aux_shape(&b.subject) || b.base == "compacted");
     for (n, &i) in free.iter().enumerate() {
         cases.push(with("union", json!({"s": ids(b, &s1(i)), "t": ids(b, &empty)})));
         cases.push(with("union_top", json!({"s": ids(b, &s1(i))})));
@@ -746,6 +858,27 @@ fn cases_for(b: &Base, args: &Args) -> Vec<Value> {
             }
         }
     }
+    // differing numbers of inputs / outputs / actions x the modifiable flags of both copies
+    if matches!(b.subject.as_str(), "t2t_v5" | "multi_v6") && matches!(b.base.as_str(), "created" | "maximal") {
+        let flags: Vec<u8> = (0..16u8).map(|m| (m & 0b111) | if m & 8 != 0 { 0x80 } else { 0 }).collect();
+        let present: Vec<&str> = LISTS.iter().filter(|l| b.top.get(&list_path(l.1, l.2)).map(|x| !x.items().is_empty()).unwrap_or(false)).map(|l| l.0).collect();
+        let mut variants: Vec<(Value, Value)> = vec![];
+        for l in &present {
+            variants.push((json!([[l, 1]]), json!([])));
+        }
+        if present.contains(&"transparent.inputs") && present.contains(&"transparent.outputs") {
+            // one copy lacks the last input, the other the last output; and one copy lacks both
+            variants.push((json!([["transparent.inputs", 1]]), json!([["transparent.outputs", 1]])));
+            variants.push((json!([["transparent.inputs", 1], ["transparent.outputs", 1]]), json!([])));
+        }
+        for (a, bb) in variants {
+            for &fa in &flags {
+                for &fb in &flags {
+                    cases.push(with("counts", json!({"a": a, "b": bb, "fa": fa, "fb": fb})));
+                }
+            }
+        }
+    }
     // flags
     if b.base == "maximal" || b.base == "vector" {
         for l in flag_alphabet() {
@@ -764,7 +897,7 @@ pub fn explore(run: &Run, args: &Args, subjects: &[Subjects]) {
         for b in BASES {
             // quick tier: the memo shapes get the top that matters for the memo representations
             // (the created PCZT is the root of their role search), without the pair enumeration
-            if args.tier == mc_core::Tier::Quick && shapes::is_memo_shape(s.shape.name) && *b != "compacted" {
+            if args.tier == mc_core::Tier::Quick && (shapes::is_memo_shape(s.shape.name) && *b != "compacted" || s.shape.name.starts_with("cltv") && !matches!(*b, "created" | "maximal")) {
                 continue;
             }
             wanted.push((Some(s), b));
@@ -813,6 +946,7 @@ pub fn explore(run: &Run, args: &Args, subjects: &[Subjects]) {
                 "union" | "union_top" => 2,
                 "conflict" | "effecting" => 2,
                 "flags" => 1,
+                "counts" => 2,
                 "assoc" => match c["sets"].as_array().map(|a| a.len()).unwrap_or(0) {
                     3 => 6 * (2 + 2 * 2),
                     _ => 24 * (3 + 5 * 3),
@@ -862,7 +996,7 @@ pub fn explore(run: &Run, args: &Args, subjects: &[Subjects]) {
         if std::env::var("VERIF_C13_DEBUG").is_ok() {
             eprintln!("TIME {}/{} {:.2}s cases {}", b.subject, b.base, tb.elapsed().as_secs_f64(), cases.len());
         }
-        run.require(free.len() >= 4, &format!("{}/{}: fewer than 4 free atoms", b.subject, b.base));
+        run.require(free.len() >= 4 || b.atoms.len() < 16, &format!("{}/{}: fewer than 4 free atoms", b.subject, b.base));
     }
     run.section("lattice", Value::Object(summary));
     // states: distinct copies materialised = distinct (subject, base, atom set) among copy cases; transitions = combiner executions
@@ -879,6 +1013,7 @@ fn case_key(c: &Value) -> String {
         "conflict" => format!("conflict[{}]", c["field"].as_str().unwrap_or("")),
         "effecting" => format!("effecting[{}|{}]", c["e"].as_str().unwrap_or(""), c["a"].as_str().unwrap_or("")),
         "flags" => format!("flags[{:#04x}|{:#04x}]", c["l"].as_u64().unwrap_or(0), c["r"].as_u64().unwrap_or(0)),
+        "counts" => format!("counts[A-{}|B-{}|{:#04x}|{:#04x}]", c["a"], c["b"], c["fa"].as_u64().unwrap_or(0), c["fb"].as_u64().unwrap_or(0)),
         "lockvar" => format!("lockvar[fallback={},height={},time={},sequence={}]", c["fallback"], c["height"], c["time"], c["sequence"]),
         "classify" => format!("classify[{}]", c["atom"].as_str().unwrap_or("")),
         x => x.to_string(),
